@@ -76,6 +76,8 @@ func New(ctx context.Context, log *slog.Logger, opts ...Opt) (*Engine, error) {
 		return nil, err
 	}
 
+	verifInterpose(ctx, e, &smCfg, 0)
+
 	if err := e.validateSettings(smCfg); err != nil {
 		return nil, err
 	}
@@ -126,6 +128,7 @@ func New(ctx context.Context, log *slog.Logger, opts ...Opt) (*Engine, error) {
 	stateMachineRoundEntrances := make(chan tmeil.StateMachineRoundEntrance)
 	e.mCfg.StateMachineRoundEntranceIn = stateMachineRoundEntrances
 	smCfg.RoundEntranceOutCh = stateMachineRoundEntrances
+	verifInterpose(ctx, e, &smCfg, 1)
 
 	e.m, err = tmmirror.NewMirror(ctx, log.With("e_sys", "mirror"), e.mCfg)
 	if err != nil {
